@@ -65,7 +65,7 @@ func (w *world) apply(o op) (a applied) {
 			}
 		}
 		info := sp.build(cur)
-		if sigInfo(info) != sigSpec(sp) {
+		if !infoMatchesSpec(info, sp) {
 			g, x := canonInfo(info), canonSpec(sp)
 			if cur == nil {
 				panic(fmt.Sprintf("harness: built region %s, spec says %s", g, x))
@@ -164,8 +164,8 @@ func (w *world) apply(o op) (a applied) {
 		a.shape = fmt.Sprintf("remove,peers%d,pending%d", len(x.spec.Peers), minInt(len(x.spec.Pending), 1))
 	}
 	// the server refreshes the statistics in the store records of the stores involved
-	for s := uint64(1); s <= 8 && !w.noRefresh; s++ {
-		if a.stores[s] {
+	for _, s := range w.stores {
+		if a.stores[s] && !w.noRefresh {
 			w.refresh(s)
 		}
 	}
@@ -317,7 +317,7 @@ func (p *prober) randPair() (hexkey, hexkey) {
 // counters and sizes of the touched stores, average size) is compared.
 func (p *prober) cheap(w *world, a applied) []*probe {
 	ps := []*probe{{Kind: "counts"}, {Kind: "avg"}}
-	for s := uint64(1); s <= 8; s++ {
+	for _, s := range w.stores {
 		if a.stores[s] || p.rng.Intn(4) == 0 {
 			ps = append(ps, &probe{Kind: "store", Store: s}, &probe{Kind: "storeinfo", Store: s})
 		}
@@ -344,9 +344,15 @@ func (p *prober) near(w *world, a applied) []*probe {
 		ps = append(ps, &probe{Kind: "scan", Start: a.start, End: a.end}, &probe{Kind: "overlaps", Start: a.start, End: a.end},
 			&probe{Kind: "adjacent", Start: a.start, End: a.end})
 	}
+	// scans that start exactly at / just before / just after the end key of the touched region
+	if a.end != "" {
+		ps = append(ps, &probe{Kind: "scan", Start: a.end, Limit: 1}, &probe{Kind: "scan", Start: predKey(a.end), Limit: -1},
+			&probe{Kind: "scan", Start: a.start, End: succKey(a.end), Limit: 2}, &probe{Kind: "scan", Start: a.end, End: succKey(a.end)})
+	}
 	s, e := p.randPair()
-	ps = append(ps, &probe{Kind: "scan", Start: s, End: e, Limit: p.rng.Intn(4)})
-	for st, k := uint64(1), 0; st <= 8; st++ {
+	ps = append(ps, &probe{Kind: "scan", Start: s, End: e, Limit: p.rng.Intn(4) - 1})
+	k := 0
+	for _, st := range w.stores {
 		if a.stores[st] && (k < 2 || len(w.m.es) < 100) { // large worlds: two of the touched stores
 			ps = append(ps, &probe{Kind: "storeset", Store: st})
 			k++
@@ -422,7 +428,7 @@ func (p *prober) full(w *world, complete bool) []*probe {
 		}
 		ps = append(ps, &probe{Kind: "allregions"}, &probe{Kind: "metacount"}, &probe{Kind: "content"})
 	}
-	for s := uint64(1); s <= 9; s++ { // 9: a store that never has peers
+	for _, s := range append(append([]uint64(nil), w.stores...), 9) { // 9: a store that never has peers
 		ps = append(ps, &probe{Kind: "store", Store: s}, &probe{Kind: "storeset", Store: s}, &probe{Kind: "storeinfo", Store: s})
 	}
 	keys := p.keys
@@ -468,7 +474,7 @@ func (p *prober) full(w *world, complete bool) []*probe {
 		}
 		pairs = append(pairs, pair{s, e})
 	}
-	lims := []int{0, 1, 2, n}
+	lims := []int{0, 1, 2, n, -1, n + 1}
 	if n > 90 {
 		lims = append(lims, 16, 99, 100, 101, 127, 128, 129) // around page sizes and the index node capacity
 	}
@@ -495,7 +501,7 @@ func (p *prober) full(w *world, complete bool) []*probe {
 		ps = append(ps, &probe{Kind: "overlaps", ID: e.spec.ID}, &probe{Kind: "adjacent", ID: e.spec.ID})
 	}
 	if complete {
-		for s := uint64(1); s <= 8; s++ {
+		for _, s := range w.stores {
 			for _, role := range roles {
 				ps = append(ps, &probe{Kind: "rand", Role: role, Store: s, Draws: 2})
 			}
@@ -544,7 +550,7 @@ func runHistory(r *ev.Run, prof profile, seed int64, sample bool) bool {
 	rng := rand.New(rand.NewSource(seed))
 	rand.Seed(seed) // pd's random picks use the global source
 	g := newGen(rng, prof)
-	w := newWorld()
+	w := newWorld(prof.StoreIDs)
 	p := newProber(g, rng)
 	var ops []op
 	var queue []op
@@ -636,8 +642,8 @@ func runHistory(r *ev.Run, prof profile, seed int64, sample bool) bool {
 }
 
 // reproduces re-applies ops to a fresh world and tells whether the same class of failure shows.
-func reproduces(ops []op, f *failure, seed int64) (bool, *failure, *world) {
-	w := newWorld()
+func reproduces(prof profile, ops []op, f *failure, seed int64) (bool, *failure, *world) {
+	w := newWorld(prof.StoreIDs)
 	rand.Seed(seed)
 	var last *failure
 	for _, o := range ops {
@@ -650,7 +656,7 @@ func reproduces(ops []op, f *failure, seed int64) (bool, *failure, *world) {
 	return g != nil && g.Class == f.Class, g, w
 }
 
-func shrink(ops []op, f *failure, seed int64) []op {
+func shrink(prof profile, ops []op, f *failure, seed int64) []op {
 	cur := append([]op(nil), ops...)
 	budget := 4000000 // op applications (weighted by the size of the world: the model is linear)
 	weight := 1
@@ -665,7 +671,7 @@ func shrink(ops []op, f *failure, seed int64) []op {
 			return false
 		}
 		budget -= (len(cand) + 50) * weight
-		ok, _, _ := reproduces(cand, f, seed)
+		ok, _, _ := reproduces(prof, cand, f, seed)
 		return ok
 	}
 	if !try(cur) {
@@ -693,9 +699,9 @@ func shrink(ops []op, f *failure, seed int64) []op {
 }
 
 func report(r *ev.Run, prof profile, seed int64, ops []op, f *failure) {
-	small := shrink(ops, f, seed)
+	small := shrink(prof, ops, f, seed)
 	hr := &histReport{Profile: prof, HistSeed: seed, OpIndex: len(ops) - 1, OpsTotal: len(ops), Ops: small, Failure: f}
-	if ok, g, w := reproduces(small, f, seed); ok {
+	if ok, g, w := reproduces(prof, small, f, seed); ok {
 		hr.Failure = g
 		hr.Model = descEntries(w.m.sorted())
 	} else {
@@ -718,7 +724,7 @@ func replay(r *ev.Run, path string) {
 		return
 	}
 	hr := doc.Witness
-	ok, g, w := reproduces(hr.Ops, hr.Failure, hr.HistSeed)
+	ok, g, w := reproduces(hr.Profile, hr.Ops, hr.Failure, hr.HistSeed)
 	r.Eval(int64(len(hr.Ops)))
 	r.Distinct("replay|" + hr.Failure.Class)
 	r.Distinct("replay|ops")
@@ -838,6 +844,10 @@ func main() {
 			break // one witness per run is enough; the state of that history has diverged
 		}
 		r.Count("histories", 1)
+	}
+	if ok {
+		// every single-field update of a cached region, through every entry point (grid.go)
+		ok = gridPhase(r, rand.New(rand.NewSource(concSeed^0x77)))
 	}
 	if ok {
 		// readers against one write stream / against concurrent cache drops (see conc.go); after the
